@@ -10,14 +10,47 @@ LEAN_MODULES = ["Exetera.Props.C10"]
 BASES = ["c03", "c04", "c08", "c09", "c14", "c16", "c17", "c06", "c05"]
 MODES = {"quick": ["bounds", "nojit"], "thorough": ["bounds", "nojit", "jit"], "search": ["bounds", "nojit"]}
 EXHAUSTIVE = {"quick": False, "thorough": False}
-TECHNIQUE = "Lean 4 refinement theorems with checked accessors (every `.ok` result is a memory-safety proof of the model) + regenerated kernel access-site table + bounds-checked and interpreted differential runs"
-LEVEL_TEXT = ("Proof, for the model's access sets: each modelled kernel reads and writes arrays only through checked accessors, and the "
-              "refinement theorems show `.ok` results for every valid input and every chunk size, so no access is out of range; the loop "
-              "guards and subscripts of those kernels are regenerated from the source and proved equal to the set the model was written "
-              "against. Partial by nature: what a stray write would do to the heap is not modelled.")
-LEVEL_NOTE = ("Trusted: Lean kernel; tools/translate_kernels.py (AST extraction of guards and subscripts of the @exetera_njit functions); "
-              "the hand-written models (validated by the differential runs under NUMBA_BOUNDSCHECK=1 and USE_NUMBA=false, where numba / "
-              "numpy raise IndexError on any out-of-range scalar access); kernels not yet modelled are covered by those runs only.")
+TECHNIQUE = ("Lean 4: per kernel family, `no_oob_*` corollaries of the owning property's `= .ok` refinement theorems (models read and "
+             "write arrays only through checked accessors) + `access_sites_covered_*`: kernel-checked equality of the regenerated "
+             "loop-guard / subscript table of every modelled @exetera_njit kernel with the table the model was written against + "
+             "`kernel_inventory_complete` + bounds-checked (NUMBA_BOUNDSCHECK=1) and interpreted (USE_NUMBA=false) differential runs "
+             "of the owning properties' cases")
+LEVEL_TEXT = ("Proof, for the models' access sets, of 64 of the 69 compiled kernels in 11 families: the eight streamed join generators "
+              "(every chunk size >= 1); ordered_map_valid_stream / _indexed_stream with their partial kernels, next_map_subchunk, "
+              "get_valid_value_extents, safe_map_values, safe_map_indexed_values, map_valid (every in-range map, chunk size >= 1, every "
+              "value factor: `.ok` or the D5 ValueError, never an index error); span detection (2 fields, multi fields, indexed, "
+              "by-spans merge) and all 15 apply_spans_* kernels incl. the _filter forms; apply_filter_to_index_values / "
+              "apply_indices_to_index_values (with the converse: an `.oob` occurs iff the filter length / a subscript is invalid); "
+              "compare_arrays, isin_indexed_string_speedup, get_indexed_string_unique; _apply_spans_concat_2 and its batch driver (every "
+              "src_chunksize >= 1, every dest_chunksize and multiplier); the six journalling kernels and journal_table; "
+              "categorical / leaky categorical / numeric_bool / fixed_string transforms and transform_to_values on every well-formed "
+              "chunk; fast_csv_reader on every window of the supported regime and its driver over any number of windows; the six flat "
+              "legacy join kernels, the two `_old` streamed join drivers (every chunk size >= 1), Session.ordered_merge_left / right in "
+              "every covered form and Session.join; check_if_sorted_for_multi_fields and "
+              "the group-by kernel pipeline. Each `no_oob_*` theorem states, under exactly the validity predicate of the owning "
+              "theorem, that for every site the model run is not `.error (.oob site)`. Buffer statements for ALL arguments: a checked "
+              "write is refused exactly when the position is not below the buffer size (push_oob_iff, pushV_oob_iff, setE_oob_iff), and no "
+              "normally returning call of ordered_map_valid_indexed_partial / _apply_spans_concat_2 leaves more elements in a result "
+              "buffer than it has slots, whatever the ratio of output to buffer size. The loop guards and subscripts of all 64 kernels "
+              "are regenerated from the source on every run and proved equal to the tables the models were written against "
+              "(access_sites_covered_<family>, 11 theorems), and every compiled kernel of the source is in a table or in the explicit "
+              "not-modelled list (kernel_inventory_complete). Partial (`_partial` theorems, hypotheses inherited from the owners): CSV "
+              "driver without buffer regrowth; indexed unique without trailing NULs (NC14a); group-by with a faithful stacking cast "
+              "(D20). Partial by nature: what a stray write would do to the heap "
+              "is not modelled.")
+LEVEL_NOTE = ("Trusted: Lean kernel; tools/translate_kernels.py (AST extraction of loop guards and subscripts of the @exetera_njit "
+              "functions; `if` tests that guard a subscript are NOT extracted - their removal is caught by the correspondence, where the "
+              "model has the branch, not by the site tables); the hand-written models (validated by the differential runs under "
+              "NUMBA_BOUNDSCHECK=1 and USE_NUMBA=false, where numba / numpy raise IndexError on any out-of-range scalar access). "
+              "The bounds-checked / interpreted re-runs of this check take the cases of C03, C04, C05, C06, C08, C09, C14, C16, C17; the "
+              "kernels owned by C07 and C19 run bounds-checked in those properties' own thorough tiers. "
+              "Differential runs only: the 5 kernels without a model (ordered_left_map_result_size, "
+              "ordered_outer_map_result_size_both_unique, ordered_inner_map_left_unique_partial, ordered_get_last_as_filter, "
+              "streaming_sort_partial - none has a caller in the library); the "
+              "buffer-full early return and regrowth of fast_csv_reader; subscripts the models do not check: the column subscript of "
+              "column_offsets[i_c] / column_inds[i_c, .] in the five import transforms, elements[row_idx] / validity[row_idx] of "
+              "numeric_bool_transform, i_result / v_result of safe_map_indexed_values (all sized by the kernel or its only caller at "
+              "the loop bound; listed in Model/KernelSites*.lean).")
 RULE = ("cases of the owning properties' generators (valid inputs only), a seeded sample per property, each executed under "
         "NUMBA_BOUNDSCHECK=1 and USE_NUMBA=false; non-trivial/distinct as defined by the owning harness")
 ASSUMPTIONS = ["NUMBA_BOUNDSCHECK=1 makes numba raise IndexError on out-of-range indexing; interpreted numpy raises IndexError on "
@@ -62,3 +95,20 @@ def check_spec(case, io, mode):
 
 def select_for_mode(case, mode, tier):
     return True
+
+
+# ------------------------------------------------------------------------------------------------------------------
+# worker warm-up: the owning harnesses are imported lazily by `meta.base` — inside the per-case alarm of checks/worker.py.
+# Importing them here happens before the alarm is armed: an alarm firing inside an import or a numba compilation leaves the
+# worker process broken for every following case (seen under heavy machine load).
+# ------------------------------------------------------------------------------------------------------------------
+import sys  # noqa: E402
+if sys.argv and sys.argv[0].endswith("worker.py"):
+    for _n in meta.available(BASES):
+        try:
+            _b = meta.base(_n)
+            _w = getattr(_b, "warm_up", None)
+            if _w:
+                _w()
+        except Exception:   # noqa
+            pass
